@@ -148,7 +148,7 @@ def build():
         "no contract within reach expresses the cell-level round trip (csv module, float() parsing, document round trip): decided by the stand-in",
     ]
     plan.trusted += ["pyvc AST->SMT translation (cross-checked against CPython)", "z3 5.1.0", "cvc5 1.0.3"]
-    plan.level = "other"
+    plan.level = "exploration"  # the deciding method for the statement is the bounded stand-in; the contracts cover the layers around it
     plan.explanation = ("Mostly bounded: the error-reporting shape (only RuntimeError raised, handled in main with a one-line message and status 1), the "
                         "coercion/reader guards and cat-numbers' per-kind export are proved or checked completely; the grid round trip is a bounded "
                         "stand-in with Python's csv module as the reference, which reports the open known finding F-C20-1 (repeated header cells).")
